@@ -26,7 +26,7 @@ SPEC = {
              "outcome); non-trivial = every case"),
     "boundscheck": {"quick": True, "thorough": True},
     "case_timeout": 300.0,
-    "deciding_monitors": ["_poisson:calls"],
+    "deciding_monitors": ["_poisson:calls", "fn:poisson"],
     "assumptions": ["seed is an integer (seed=None is documented as unseeded)"],
 }
 
